@@ -299,4 +299,8 @@ example : Blk.WF {} ∧ Zstd.Proofs.BitIO.Bytes [0x20, 0x61, 0x62, 0x63, 0x64, 0
     isOk (Blk.decompressBlock [0x20, 0x61, 0x62, 0x63, 0x64, 0x01, 0x54, 0x04, 0x02, 0x00, 0x04] {} {}).2 = true := by
   refine ⟨Blk.WF_new, by intro x hx; simp at hx; omega, by decide +kernel⟩
 
+/-- the zero-offset guard of `execute_sequences` in the SOURCE (operator extracted on every run, anchored to the whole
+condition) is the one the model uses (`if actual = 0 then err ZeroOffset`): without it `repeat(0, n)` never ends -/
+theorem zero_offset_guard_is_the_models (a : Nat) : Gen.execZeroOffset a 0 = decide (a = 0) := rfl
+
 end Zstd.Props.C03
